@@ -2,7 +2,7 @@
 # usage: tools/try_seed.sh <seeded dir> <Cxx> [more Cyy ...]  — applies patch.diff to /repo, runs the quick checks under SEEDS, reverts
 set -u
 d=$1; shift
-keep=$(mktemp -d /tmp/evidence.keep.XXXXXX); cp -r evidence/. "$keep"/; trap 'cp -r "$keep"/. evidence/; rm -rf "$keep"; git -C /repo checkout -- . 2>/dev/null' EXIT
+keep=$(mktemp -d /tmp/evidence.keep.XXXXXX); cp -r evidence/. "$keep"/; trap 'cp -r "$keep"/. evidence/; rm -rf "$keep"; git -C /repo checkout -- . 2>/dev/null; git checkout -- lean/SynapModel/Generated 2>/dev/null' EXIT
 git -C /repo apply "$d/patch.diff" || { echo "patch does not apply"; exit 2; }
 for p in "$@"; do for s in ${SEEDS:-0}; do
   out=$(VERIF_SEED=$s ./check "$p" --tier ${TIER:-quick} 2>&1); rc=$?
